@@ -82,6 +82,8 @@ class Gen:
         self.fns = []         # dicts: qual, lo, hi, src, src_line, kind
         self.rule_log = []    # (fn, rule, count)
         self.dropped = []     # what extraction dropped (struct fields, attrs)
+        self.stub = False     # currently inside a stub-included unit
+        self.stub_units = []  # units whose contracts are used here without re-proving them
 
     def cur_line(self):
         return len(self.lines) + 1
@@ -89,6 +91,8 @@ class Gen:
     def add(self, text, fn=None):
         for ln in text.split("\n"):
             self.lines.append(ln)
+            if self.stub:
+                continue
             m = re.search(r"//\s*\[((?:prop|pin|safety|lemma)\.[A-Za-z0-9_.\-]+)\]", ln)
             if m:
                 lab = m.group(1)
@@ -253,6 +257,8 @@ def gen_fn(g, header_words, block_lines):
     spec = "\n".join(text for kind, args, text in sections if kind == "spec")
     attrs = [text for kind, args, text in sections if kind == "attr" and not text.startswith("sig ")]
     lo = g.cur_line()
+    if g.stub:
+        g.add("#[verifier::external_body] // proved-in-unit " + g.stub)
     for a in attrs:
         g.add(a)
     g.add("// <extracted %s %s line %d>" % (path, qual, item.line))
@@ -261,6 +267,8 @@ def gen_fn(g, header_words, block_lines):
         g.add(spec, fn=shown)
     g.add(emit_body(body).lstrip(), fn=shown)
     hi = g.cur_line() - 1
+    if g.stub:
+        return
     g.fns.append({"qual": shown, "lo": lo, "hi": hi, "src": path, "src_line": item.line})
 
 
@@ -292,8 +300,40 @@ def gen_adt(g, kind, words):
         for f in out:
             g.add("    " + " ".join(f.split()) + ",")
         g.add("}")
+        if kind == "enum" and opts.get("primitive"):
+            gen_primitive(g, name, out, opts["primitive"])
     else:
         g.add(emit_trim(head) + emit_trim(body or []))
+
+
+def gen_primitive(g, name, variants, prim):
+    """R8: what #[derive(FromPrimitive, ToPrimitive)] generates, from the declared discriminants"""
+    pairs = []
+    nxt = 0
+    for v in variants:
+        if "=" in v:
+            nm, d = [x.strip() for x in v.split("=", 1)]
+            nxt = int(d.replace("_", ""), 0)
+        else:
+            nm = v.strip()
+        pairs.append((nm, nxt))
+        nxt += 1
+    g.rule_log.append((name, "R8 from_%s/to_%s tables from discriminants" % (prim, prim), 1))
+    g.add("impl %s {" % name)
+    g.add("    pub open spec fn spec_from_%s(n: %s) -> Option<%s> {" % (prim, prim, name))
+    g.add("        " + " ".join("if n == %d { Some(%s::%s) } else" % (d, name, nm) for nm, d in pairs) + " { None }")
+    g.add("    }")
+    g.add("    pub open spec fn spec_to_%s(self) -> %s {" % (prim, prim))
+    g.add("        match self { " + " ".join("%s::%s => %d," % (name, nm, d) for nm, d in pairs) + " }")
+    g.add("    }")
+    g.add("    pub fn from_%s(n: %s) -> (ret: Option<%s>) ensures ret == Self::spec_from_%s(n) {" % (prim, prim, name, prim))
+    g.add("        match n { " + " ".join("%d => Some(%s::%s)," % (d, name, nm) for nm, d in pairs) + " _ => None }")
+    g.add("    }")
+    g.add("    pub fn to_%s(&self) -> (ret: Option<%s>) ensures ret == Some(self.spec_to_%s()) {" % (prim, prim, prim))
+    g.add("        Some(match self { " + " ".join("%s::%s => %d," % (name, nm, d) for nm, d in pairs) + " })")
+    g.add("    }")
+    g.add("    pub proof fn lemma_%s_roundtrip(self) ensures Self::spec_from_%s(self.spec_to_%s()) == Some(self) {}" % (prim, prim, prim))
+    g.add("}")
 
 
 def gen_const(g, words):
@@ -308,6 +348,7 @@ def gen_const(g, words):
 def generate(unit_name, seen=None):
     g = Gen(unit_name)
     _gen_into(g, unit_name, seen or set())
+    g.add("fn main() {}")
     return g
 
 
@@ -326,7 +367,14 @@ def _gen_into(g, unit_name, seen):
             words = shlex.split(s[3:].strip(), posix=True)
             d = words[0]
             if d == "include":
-                _gen_into(g, words[1], seen)
+                if len(words) > 2 and words[2] == "stub" and not g.stub:
+                    g.stub = words[1]
+                    if words[1] not in g.stub_units:
+                        g.stub_units.append(words[1])
+                    _gen_into(g, words[1], seen)
+                    g.stub = False
+                else:
+                    _gen_into(g, words[1], seen)
             elif d in ("struct", "enum"):
                 gen_adt(g, d, words[1:])
             elif d in ("const", "type"):
@@ -343,6 +391,8 @@ def _gen_into(g, unit_name, seen):
                 i = j
             else:
                 raise TemplateError("%s: unknown directive %s" % (unit_name, d))
+        elif s == "fn main() {}":
+            pass
         else:
             g.add(ln)
         i += 1
